@@ -3161,3 +3161,124 @@ func H_C01_zipLengths(na, nb int) {
 		verifAssert(failed, "C01/C03: mapping a call over two run-time arrays of different lengths is reported as an error: no element of either array is silently left out")
 	}
 }
+
+const vrItemSrc = `
+struct ITEM(
+    bool skip,
+    int  value,
+)
+
+stage GEN(
+    out ITEM[] items,
+    src comp   "g",
+)
+
+stage WORK(
+    in  int v,
+    out int r,
+    src comp "w",
+)
+
+pipeline INNER(
+    in  ITEM item,
+    out int  r,
+)
+{
+    call WORK(
+        v = self.item.value,
+    ) using (
+        disabled = self.item.skip,
+    )
+
+    return (
+        r = WORK.r,
+    )
+}
+
+pipeline TOP(
+    out int[] rs,
+)
+{
+    call GEN()
+
+    map call INNER(
+        item = split GEN.items,
+    )
+
+    return (
+        rs = INNER.r,
+    )
+}
+
+call TOP()
+`
+
+func vrItemGraph() *vrReal {
+	disableUniquification = false
+	return verifCached("vrItemGraph", func() any {
+		rt := &Runtime{Config: &RuntimeOptions{JobMode: "local", VdrMode: VdrDisable}, mrjob: "/m/mrjob", adaptersPath: "/m/adapters"}
+		_, _, ps, err := rt.instantiatePipeline([]byte(vrItemSrc), "/m/p.mro", "ps", "/ps", nil, "none", nil, false, true, context.Background())
+		if err != nil {
+			panic("fixture does not instantiate: " + err.Error())
+		}
+		n := func(name string) *Node { return ps.node.top.allNodes["ID.ps.TOP."+name] }
+		return &vrReal{ps, n("GEN"), n("INNER.WORK"), nil}
+	}).(*vrReal)
+}
+
+// H_C01_disabledByMember: a pipeline is mapped over an array of two structs
+// which a stage produces at run time; inside it one call is disabled by a
+// member of its element (disabled = self.item.skip) and fed another member.
+//
+//	C03: WORK runs exactly for the elements whose skip is false.
+//	C01: it receives its element's value; the top-level output holds, per
+//	     element, the call's result or null where it was disabled.
+func H_C01_disabledByMember() {
+	w := vrItemGraph()
+	vrOuts = map[*Metadata]LazyArgumentMap{}
+	var skip [2]bool
+	items := []byte{'['}
+	for i := range skip {
+		skip[i] = verifBool("skip")
+		if i > 0 {
+			items = append(items, ',')
+		}
+		s := "false"
+		if skip[i] {
+			s = "true"
+		}
+		items = append(items, (`{"skip":` + s + `,"value":` + string(rune('1'+i)) + `}`)...)
+	}
+	items = append(items, ']')
+	vrOuts[w.gen.forks[0].metadata] = LazyArgumentMap{"items": json.RawMessage(items)}
+	w.work.expandForks(true)
+	verifCover("forks of a call disabled by a member of its element expanded")
+	verifAssert(len(w.work.forks) == 2, "C03: one fork per element")
+	if len(w.work.forks) != 2 {
+		return
+	}
+	var results [2]json.RawMessage
+	for i, f := range w.work.forks {
+		dis, err := f.disabled()
+		verifAssert(err == nil, "C03: the disabling condition of every fork resolves")
+		verifAssert(dis == skip[i], "C03: a fork is disabled exactly when its element's member says so")
+		if !dis {
+			_, args, err := w.work.resolveInputs(f.forkId, false)
+			verifAssert(err == nil, "C01: the inputs of an enabled fork resolve")
+			if err == nil {
+				verifAssert(verifBytesEq(vrEncode(args), []byte(`{"v":`+string(rune('1'+i))+`}`)), "C01: the fork for element i receives a member of element i")
+			}
+			results[i] = vrDigit("work result")
+			vrOuts[f.metadata] = LazyArgumentMap{"r": results[i]}
+		} else {
+			results[i] = json.RawMessage("null")
+		}
+	}
+	outs, _, err := w.ps.node.resolvePipelineOutputs(nil)
+	verifAssert(err == nil && outs != nil, "C01: the outputs of a pipeline mapped over run-time structs, with a call disabled by a member of its element, resolve")
+	if err != nil || outs == nil {
+		return
+	}
+	want := vrCat([]byte(`{"rs":[`), results[0], []byte(","), results[1], []byte(`]}`))
+	verifAssert(verifBytesEq(vrEncode(outs), want), "C01: per element, the top-level output holds the result of the call, or null where the call was disabled")
+}
